@@ -51,7 +51,16 @@ def build_case(b, name):
         plain = [w for w in wl if w not in (1, 7)]
         fillers = 0 if (ctl or plain) else bit - 1 - (bit // 4096)
         wl = plain
-    return {"case": name, "kind": kind, "props": [], "wakers": wl, "threads": threads, "fillers": fillers,
+    hprog = {}
+    hp = b.get("hprog")
+    if isinstance(hp, list):
+        # a function over 1..n is printed as a sequence
+        hp = {str(i + 1): pr for i, pr in enumerate(hp)}
+    if isinstance(hp, dict):
+        for w, pr in hp.items():
+            hprog[str(int(w))] = {"wake": [list(a) for a in _seq(pr.get("wake", []))],
+                                  "final": [list(a) for a in _seq(pr.get("final", []))]}
+    return {"case": name, "kind": kind, "props": [], "wakers": wl, "threads": threads, "fillers": fillers, "hprog": hprog,
             "main": _ops(b["main"]), "schedule": [int(x) for x in _seq(b["sched"])], "seed": 1, "fallback": "rr",
             "autodrop": False, "ctl": ctl,
             "pred_lo": _seq(b["lo"]), "pred_hi": _seq(b["hi"])}
